@@ -39,6 +39,10 @@ print('\n#### Seeded changes (sub-agents, property text only)\n')
 print('| seed | what was changed | own check | reported as |')
 print('|---|---|---|---|')
 rows = parse('/verif/selftest/seeded.log', 'seeded')
+cross = {}
+for r in parse('/verif/selftest/cross.log', 'seeded'):
+    if r['exit'] == 1:
+        cross.setdefault(r['what'], []).append('%s (%s)' % (r['check'], sig(r['detail'])))
 for r in rows:
     title = ''
     mp = '/verif/seeded/%s/meta.json' % r['what']
@@ -48,6 +52,11 @@ for r in rows:
     v = 'VIOLATION' if r['exit'] == 1 else ('missed' if r['exit'] == 0 else 'infrastructure error')
     if 'no-failing-input-found' in r['vline']:
         v += ' (no-failing-input-found)'
-    print('| %s | %s | %s %s | %s |' % (r['what'], title[:110], r['check'], v, sig(r['detail']) if r['exit'] == 1 else ''))
+    rep = sig(r['detail']) if r['exit'] == 1 else ''
+    if r['exit'] != 1 and r['what'] in cross:
+        rep = 'reported by ' + '; '.join(cross[r['what']])
+    print('| %s | %s | %s %s | %s |' % (r['what'], title[:110], r['check'], v, rep))
 n = len(rows); c = sum(1 for r in rows if r['exit'] == 1)
-print('\n%d of %d seeded changes are reported by the check of the property they target (quick tier).' % (c, n))
+nf = sum(1 for r in rows if r['exit'] == 1 and 'no-failing-input-found' in r['vline'])
+oc = sum(1 for r in rows if r['exit'] != 1 and r['what'] in cross)
+print('\n%d of %d seeded changes are reported by the check of the property they target (quick tier), %d of those without a failing input (broken obligation or correspondence only); %d more are reported by the check of another property.' % (c, n, nf, oc))
